@@ -163,6 +163,8 @@ PTResult ==
   /\ LET f == Top  n == f.node  pt == n.pts[f.i] IN
      Commit(
        IF pt = "ok" THEN WithTop(Cur, [f EXCEPT !.pc = "pts", !.i = f.i + 1])
+       \* a PostTransform that rewrites its (primitive) destination with the marker value 7
+       ELSE IF pt = "mut" THEN WithTop(SetDest(Cur, f.dp, 7), [f EXCEPT !.pc = "pts", !.i = f.i + 1])
        ELSE WithTop(AddIssue(Cur, f.ctx, Iss(f.ip, IF pt = "zerr" THEN "ptz" ELSE "", DType(n))),
                     [f EXCEPT !.pc = "done"]))
 
@@ -289,7 +291,8 @@ Next ==
 
 \* the state a call starts in
 InitDestOf(c) ==
-  IF c.mode = "parse" THEN InitDest(c.schema, <<>>) ELSE Flatten(c.schema, c.input, <<>>)
+  IF c.mode = "parse" THEN (IF c.pre = 1 THEN InitDestPre(c.schema, <<>>) ELSE InitDest(c.schema, <<>>))
+  ELSE Flatten(c.schema, c.input, <<>>)
 
 StartOf(c) ==
   /\ case = c
